@@ -124,6 +124,34 @@ CHECKS = {
         note='Partial: that a model step corresponds to a bounded number of interpreter line events is measured, not proved; work inside C '
              'primitives is invisible to the metric; K, K0 and the slope tolerance are calibrated constants reported in the evidence.',
         technique='Coq proof over a cost semantics of the modelled loops; sys.monitoring step counts at growing sizes on the implementation'),
+    'C06': dict(
+        category='proof',
+        text='An encoder/decoder for the TLS presentation language and for records, alerts, CCS, the handshake header, client/server '
+             'hello, certificate, ServerHelloDone and nine extension payloads is written in Coq from the RFC text, importing nothing from '
+             'the model of the implementation. Theorems: the models of TlsRecord.compose, of the handshake header and of every vector of '
+             'coded enum members produce exactly the specification encoding (model = spec, all values); the specification decodes what it '
+             'encodes (client hello with SCSVs anywhere, vectors); the floors/ceilings regenerated from the live library equal the RFC '
+             'table (22 vectors, 2 more on the ceiling) and every length prefix is the width the RFC derives from the ceiling. Tie: the '
+             'implementation composes generated structures and the bytes are compared with the specification encoding; specification '
+             'encodings are parsed by the implementation and the recovered fields compared (an error made consistently in parse and '
+             'compose is therefore visible).',
+        design_ref='DESIGN.md section 6, C06',
+        note='Trusted: Coq kernel; gen_tables.py; extraction + OCaml; differential harness; the RFC transcription (from memory, validated on '
+             'the implementation and proved coherent). Not yet specified: SSL 2.0 messages, key_share, status_request, SCT, token binding, '
+             'certificate request, hello retry request.',
+        technique='Coq proof (model = RFC specification, specification coherence, generated bounds = RFC table); implementation-vs-specification differential run'),
+    'C15': dict(
+        category='proof',
+        text='The published JA3 algorithm is written in Coq over the wire bytes (through the specification decoder) and the ja3() method '
+             'is modelled as a function of the hello. Theorems: the method equals the reference for every hello without GREASE cipher '
+             'suites, signalling suites, repeated group/format extensions or one-byte-GREASE point formats (all other sections, GREASE '
+             'extension types and groups included); the library GREASE table is RFC 8701 on the whole 2-byte space; the value is stable '
+             'under compose + parse; the full statement is refuted by two witnesses (known findings pinned by the suite). Tie: generated '
+             'hellos, hello.ja3() vs the model of the method vs the reference on the bytes.',
+        design_ref='DESIGN.md section 6, C15',
+        note='Trusted: Coq kernel; gen_tables.py; extraction + OCaml; differential harness. The parse step between bytes and hello object is '
+             'tied by the C06 decode correspondence, not modelled.',
+        technique='Coq proof (partial statement + refutation of the full one + stability); three-way differential run implementation / model / reference'),
 }
 
 NOT_YET = {}
